@@ -431,6 +431,10 @@ def main(plugin, argv):
     pid = plugin.ID
     ctx = Ctx(pid, tier, seed)
     ev_path = os.path.join(VERIF, "evidence", pid + ".json")
+    if os.path.realpath(REPO) != "/repo":
+        # a run against a scratch copy (seeded change, candidate repair) never overwrites the evidence of the real tree
+        os.makedirs(os.path.join(CACHE, "evidence-scratch"), exist_ok=True)
+        ev_path = os.path.join(CACHE, "evidence-scratch", pid + ".json")
     os.makedirs(os.path.dirname(ev_path), exist_ok=True)
     try:
         os.remove(ev_path)
